@@ -216,6 +216,16 @@ def rand_state(rng, qd, qD, scale=1.0):
     return psi
 
 
+def integer_tensors(psi):
+    """the same state pattern with integer-dtype tensors (entries in -3..3, zeros stay zeros): a valid MPS whose tensors
+    every algorithm has to promote to floating point itself"""
+    for i in range(len(psi.A)):
+        a = np.asarray(psi.A[i]).real
+        m = float(np.max(np.abs(a))) if a.size else 0.0
+        psi.A[i] = np.rint(3 * a / m).astype(np.int64) if m > 0 else a.astype(np.int64)
+    return psi
+
+
 def small_profile(rng, L, d, Dmax, style):
     """bond dimensions; 'reduced' clips a random profile so that a generic state has full Schmidt rank"""
     if style == 'one':
